@@ -37,7 +37,10 @@ func TestBinary(t *testing.T) {
 				histeng.Step{Kind: "build", Build: &histeng.BuildOpts{Patterns: []string{"//..."}}})
 			// a third round under load_outputs=minimal in which cached dependencies have to be brought back (fresh checkout)
 			// or re-run because their blobs are gone: also that work has to stay within the worker bound
-			switch rapid.IntRange(0, 2).Draw(t, "third") {
+			switch rapid.IntRange(0, 3).Draw(t, "third") {
+			case 3: // nothing is cached and nothing is loaded up front: each target still runs exactly once
+				h.Steps = append(h.Steps, histeng.Step{Kind: "bump-nonce", T: rapid.IntRange(0, 9).Draw(t, "t3")},
+					histeng.Step{Kind: "build", Build: &histeng.BuildOpts{Patterns: []string{"//..."}, LoadOutputs: "minimal", NoCache: true}})
 			case 1:
 				h.Steps = append(h.Steps, histeng.Step{Kind: "perturb-clean"}, histeng.Step{Kind: "bump-nonce", T: rapid.IntRange(0, 9).Draw(t, "t3")},
 					histeng.Step{Kind: "build", Build: &histeng.BuildOpts{Patterns: []string{"//..."}, LoadOutputs: "minimal"}})
